@@ -5,7 +5,7 @@
 From Coq Require Import ZArith List Lia.
 From EV Require Import Res Arr MapStream MapStreamSpec MapStreamBase MapStreamFixed MapStreamGen MapStreamRefuted MapHelpers
   MapIndexedBase MapIndexedKernel MapIndexedDriver MapIndexedHelper MapStreamOrig MapStreamSpan
-  MapHistorySpec MapHistory MapHistoryProofs.
+  MapHistorySpec MapHistory MapHistoryProofs MapCallForms MapCallFormsProofs.
 Import ListNotations.
 Open Scope Z_scope.
 
@@ -269,3 +269,125 @@ Example history_correct_hyps :   (* 'a','bb','ccc'; numeric then indexed then he
          [ONum [10;0;30;20]; OIdx [0;1;1;4;6] [97;99;99;99;98;98]; ONum [10;0;30;20];
           ONum [0;0;2;INVALID_INDEX_32]]).
 Proof. vm_compute. reflexivity. Qed.
+
+(* ---- CALL FORMS: optional arguments omitted (Model/MapCallForms.v): FULL ---------------------------
+   `invalid`, `chunksize` and `value_factor` are optional; DataFrame.merge and Session._streaming_map_fields
+   never pass the two sizes. An omitted argument is None; its default is a CONSTANT (invalid -1, chunksize
+   DEFAULT_CHUNKSIZE = 2^20, value_factor 8) that depends neither on the map nor on the source. For every
+   combination of given / omitted arguments the call yields the specification; with both sizes omitted the
+   only size condition of the indexed mapping is absolute (no mapped entry longer than 2^23 bytes) — the
+   length of the map does not enter. *)
+Theorem stream_call_correct :
+  forall (A:Type) (zfill empty:A) (data:list A) (m:list Z) (inv cs:option Z) (fuel:nat),
+    1 <= opt_default cs DEFAULT_CHUNKSIZE ->
+    in_range_map (len data) (opt_default inv DEFAULT_INVALID) m -> (fuel >= length m + 1)%nat ->
+    stream_call zfill empty fuel Fixed data m inv cs
+    = Ok (map_spec empty data (opt_default inv DEFAULT_INVALID) m).
+Proof. exact stream_call_correct_top. Qed.
+Print Assumptions stream_call_correct.
+
+Theorem stream_call_omitted_chunksize :
+  forall (A:Type) (zfill empty:A) (data:list A) (m:list Z) (inv:option Z) (fuel:nat),
+    in_range_map (len data) (opt_default inv DEFAULT_INVALID) m -> (fuel >= length m + 1)%nat ->
+    stream_call zfill empty fuel Fixed data m inv None
+    = Ok (map_spec empty data (opt_default inv DEFAULT_INVALID) m).
+Proof. exact stream_call_omitted_chunksize_top. Qed.
+Print Assumptions stream_call_omitted_chunksize.
+
+Theorem indexed_stream_call_correct :
+  forall (d_idx d_val:list Z) (m:list Z) (inv cs vf:option Z) (fuel:nat),
+    wf_indexed d_idx d_val ->
+    1 <= opt_default cs DEFAULT_CHUNKSIZE -> 0 <= opt_default vf DEFAULT_VALUE_FACTOR ->
+    in_range_map (len d_idx - 1) (opt_default inv DEFAULT_INVALID) m ->
+    entries_fit d_idx d_val (opt_default inv DEFAULT_INVALID) m
+                (opt_default cs DEFAULT_CHUNKSIZE * opt_default vf DEFAULT_VALUE_FACTOR) ->
+    (fuel >= 2 * length m + 2)%nat ->
+    indexed_stream_call fuel Fixed d_idx d_val m inv cs vf
+    = Ok (indexed_spec d_idx d_val (opt_default inv DEFAULT_INVALID) m).
+Proof. exact indexed_stream_call_correct_top. Qed.
+Print Assumptions indexed_stream_call_correct.
+
+Theorem indexed_stream_call_omitted_sizes :      (* f(src, map, dst[, invalid]) — the production call form *)
+  forall (d_idx d_val:list Z) (m:list Z) (inv:option Z) (fuel:nat),
+    wf_indexed d_idx d_val ->
+    in_range_map (len d_idx - 1) (opt_default inv DEFAULT_INVALID) m ->
+    entries_fit d_idx d_val (opt_default inv DEFAULT_INVALID) m 8388608 ->
+    (fuel >= 2 * length m + 2)%nat ->
+    indexed_stream_call fuel Fixed d_idx d_val m inv None None
+    = Ok (indexed_spec d_idx d_val (opt_default inv DEFAULT_INVALID) m).
+Proof. exact indexed_stream_call_omitted_sizes_top. Qed.
+Print Assumptions indexed_stream_call_omitted_sizes.
+
+Theorem indexed_stream_call_omitted_chunksize :  (* value_factor alone *)
+  forall (d_idx d_val:list Z) (m:list Z) (inv:option Z) (vf:Z) (fuel:nat),
+    wf_indexed d_idx d_val -> 0 <= vf ->
+    in_range_map (len d_idx - 1) (opt_default inv DEFAULT_INVALID) m ->
+    entries_fit d_idx d_val (opt_default inv DEFAULT_INVALID) m (1048576 * vf) ->
+    (fuel >= 2 * length m + 2)%nat ->
+    indexed_stream_call fuel Fixed d_idx d_val m inv None (Some vf)
+    = Ok (indexed_spec d_idx d_val (opt_default inv DEFAULT_INVALID) m).
+Proof. exact indexed_stream_call_omitted_chunksize_top. Qed.
+Print Assumptions indexed_stream_call_omitted_chunksize.
+
+Theorem indexed_stream_call_omitted_value_factor :   (* chunksize alone: 8 bytes per row of the chunk *)
+  forall (d_idx d_val:list Z) (m:list Z) (inv:option Z) (cs:Z) (fuel:nat),
+    wf_indexed d_idx d_val -> 1 <= cs ->
+    in_range_map (len d_idx - 1) (opt_default inv DEFAULT_INVALID) m ->
+    entries_fit d_idx d_val (opt_default inv DEFAULT_INVALID) m (cs * 8) ->
+    (fuel >= 2 * length m + 2)%nat ->
+    indexed_stream_call fuel Fixed d_idx d_val m inv (Some cs) None
+    = Ok (indexed_spec d_idx d_val (opt_default inv DEFAULT_INVALID) m).
+Proof. exact indexed_stream_call_omitted_value_factor_top. Qed.
+Print Assumptions indexed_stream_call_omitted_value_factor.
+
+(* ---- size independence in the supported regime: FULL -------------------------------------------------
+   whatever sizes a call uses (given or defaulted), its answer is that of the driver run with ANY other
+   sizes of the regime. This is what allows the extracted entry to evaluate a call that uses the 2^20-row
+   default through a small proxy size (stream_call_eval / indexed_stream_call_eval test the regime on the
+   case at hand with boolean checks and otherwise run the call as it is). *)
+Theorem stream_call_size_independent :
+  forall (A:Type) (zfill empty:A) (data:list A) (m:list Z) (inv cs:option Z) (cs':Z) (fuel fuel':nat),
+    1 <= opt_default cs DEFAULT_CHUNKSIZE -> 1 <= cs' ->
+    in_range_map (len data) (opt_default inv DEFAULT_INVALID) m ->
+    (fuel >= length m + 1)%nat -> (fuel' >= length m + 1)%nat ->
+    stream_call zfill empty fuel Fixed data m inv cs
+    = ordered_map_valid_stream zfill empty fuel' Fixed data m (opt_default inv DEFAULT_INVALID) cs'.
+Proof. exact stream_call_size_independent_top. Qed.
+Print Assumptions stream_call_size_independent.
+
+Theorem indexed_stream_call_size_independent :
+  forall (d_idx d_val:list Z) (m:list Z) (inv cs vf:option Z) (cs' vf':Z) (fuel fuel':nat),
+    wf_indexed d_idx d_val ->
+    1 <= opt_default cs DEFAULT_CHUNKSIZE -> 0 <= opt_default vf DEFAULT_VALUE_FACTOR -> 1 <= cs' -> 0 <= vf' ->
+    in_range_map (len d_idx - 1) (opt_default inv DEFAULT_INVALID) m ->
+    entries_fit d_idx d_val (opt_default inv DEFAULT_INVALID) m
+                (opt_default cs DEFAULT_CHUNKSIZE * opt_default vf DEFAULT_VALUE_FACTOR) ->
+    entries_fit d_idx d_val (opt_default inv DEFAULT_INVALID) m (cs' * vf') ->
+    (fuel >= 2 * length m + 2)%nat -> (fuel' >= 2 * length m + 2)%nat ->
+    indexed_stream_call fuel Fixed d_idx d_val m inv cs vf
+    = ordered_map_valid_indexed_stream fuel' Fixed d_idx d_val m (opt_default inv DEFAULT_INVALID) cs' vf'.
+Proof. exact indexed_stream_call_size_independent_top. Qed.
+Print Assumptions indexed_stream_call_size_independent.
+
+Theorem stream_call_eval_correct :       (* what the entry runs = the call, for every proxy size *)
+  forall (A:Type) (zfill empty:A) (data:list A) (m:list Z) (inv cs:option Z) (pcs:Z) (fuel:nat),
+    in_range_map (len data) (opt_default inv DEFAULT_INVALID) m -> (fuel >= length m + 1)%nat ->
+    stream_call_eval zfill empty fuel data m inv cs pcs = stream_call zfill empty fuel Fixed data m inv cs.
+Proof. exact stream_call_eval_ok. Qed.
+Print Assumptions stream_call_eval_correct.
+
+Theorem indexed_stream_call_eval_correct :
+  forall (d_idx d_val:list Z) (m:list Z) (inv cs vf:option Z) (pcs pvf:Z) (fuel:nat),
+    wf_indexed d_idx d_val ->
+    in_range_map (len d_idx - 1) (opt_default inv DEFAULT_INVALID) m -> (fuel >= 2 * length m + 2)%nat ->
+    indexed_stream_call_eval fuel d_idx d_val m inv cs vf pcs pvf
+    = indexed_stream_call fuel Fixed d_idx d_val m inv cs vf.
+Proof. exact indexed_stream_call_eval_ok. Qed.
+Print Assumptions indexed_stream_call_eval_correct.
+
+Example indexed_stream_call_hyps :   (* 3-row map, a 53-byte entry (> 8 bytes per map row), all sizes omitted, proxy 4 x 16 *)
+  let di := [0; 53; 64; 64] in let dv := repeat 97 53 ++ repeat 98 11 in
+  fitb di dv (-1) [0; -1; 2] (DEFAULT_CHUNKSIZE * DEFAULT_VALUE_FACTOR) = true /\
+  fitb di dv (-1) [0; -1; 2] (4 * 16) = true /\
+  indexed_stream_call_eval 20 di dv [0; -1; 2] None None None 4 16 = Ok ([0; 53; 53; 53], repeat 97 53).
+Proof. exact indexed_call_eval_witness. Qed.
